@@ -51,7 +51,7 @@ seq_t dtw_warping_paths{{ suffix }}{{ suffix2 }}(seq_t *wps,
     {%- else %}
     // DTWPruned
     idx_t sc = 0;
-    idx_t ec = 0;
+    idx_t ec = settings->psi_2b;  // border cells up to psi_2b are live predecessors of row 0
     idx_t ec_next;
     bool smaller_found;
     {%- endif %}
@@ -171,7 +171,7 @@ seq_t dtw_warping_paths{{ suffix }}{{ suffix2 }}(seq_t *wps,
                 smaller_found = true;
                 ec_next = ci + 1;
             } else {
-                if (!smaller_found)
+                if (!smaller_found && ri >= settings->psi_1b)
                     sc = ci + 1;
                 if (ci >= ec)
                     break;
@@ -241,7 +241,7 @@ seq_t dtw_warping_paths{{ suffix }}{{ suffix2 }}(seq_t *wps,
                 smaller_found = true;
                 ec_next = ci + 1;
             } else {
-                if (!smaller_found)
+                if (!smaller_found && ri >= settings->psi_1b)
                     sc = ci + 1;
                 if (ci >= ec)
                     break;
@@ -311,7 +311,7 @@ seq_t dtw_warping_paths{{ suffix }}{{ suffix2 }}(seq_t *wps,
                 smaller_found = true;
                 ec_next = ci + 1;
             } else {
-                if (!smaller_found)
+                if (!smaller_found && ri >= settings->psi_1b)
                     sc = ci + 1;
                 if (ci >= ec)
                     break;
@@ -391,7 +391,7 @@ seq_t dtw_warping_paths{{ suffix }}{{ suffix2 }}(seq_t *wps,
                 smaller_found = true;
                 ec_next = ci + 1;
             } else {
-                if (!smaller_found)
+                if (!smaller_found && ri >= settings->psi_1b)
                     sc = ci + 1;
                 if (ci >= ec)
                     break;
